@@ -7,6 +7,7 @@
 pub mod common;
 pub mod e2e;
 pub mod engine;
+pub mod irhook;
 pub mod reduce;
 pub mod swgen;
 pub mod swgen_gen;
